@@ -164,6 +164,10 @@ func (k *c05) RunCase(c *core.Ctx, i int) {
 	}
 	gmp := []string{"1", "2", "4", "16"}
 	for vn := 0; vn < k.variants; vn++ {
+		if c.OverBudget() {
+			c.NotJudged(1)
+			return
+		}
 		vr := c.Rng(i, fmt.Sprintf("variant%d", vn))
 		vj := j.Clone()
 		kind := vn % 3
